@@ -316,16 +316,6 @@ class Parser:
             self.__set_expected("string")
             return True
 
-        condition = (
-            ttype in ["left_cbracket", "comma"]
-            and self.__curcommand.non_deterministic_args
-        )
-        if condition:
-            self.__curcommand.reassign_arguments()
-            # rewind lexer
-            self.lexer.pos -= 1
-            return True
-
         return False
 
     def __arguments(self, ttype: str, tvalue: bytes) -> bool:
@@ -362,6 +352,18 @@ class Parser:
             self.__push_expected_bracket("right_parenthesis", b")")
             self.__set_expected("identifier")
             return True
+
+        condition = (
+            ttype in ["left_cbracket", "comma", "right_parenthesis"]
+            and self.__curcommand.non_deterministic_args
+            and not self.__curcommand.iscomplete()
+        )
+        if condition:
+            self.__curcommand.reassign_arguments()
+            if self.__curcommand.iscomplete():
+                # rewind lexer: the token now belongs to the parent command
+                self.lexer.pos -= 1
+                return self.__check_command_completion(testsemicolon=False)
 
         if ttype == "comma":
             self.__set_expected("identifier")
